@@ -110,6 +110,14 @@ fn ranges_str(v: &[(usize, usize)]) -> String {
 
 fn main() {
     // (a forked child of the code under test that panics is stopped by hx::main_loop itself)
+    // commands run by the real expansion (`$(cat)`, backquotes) must not wait on whatever stdin the driver inherited
+    unsafe {
+        let fd = libc::open(b"/dev/null\0".as_ptr() as *const libc::c_char, libc::O_RDONLY);
+        if fd >= 0 {
+            libc::dup2(fd, 0);
+            libc::close(fd);
+        }
+    }
     main_loop(|f| op(f));
 }
 
